@@ -26,6 +26,25 @@ def frac(x):
         return None
 
 
+FLOAT_LO, FLOAT_HI = 1e-150, 1e150
+
+
+def representable(*values):
+    """False when a magnitude is so extreme that float under/overflow (not the planner)
+    would decide the outcome: natural and astronomical units span 120 orders of
+    magnitude, and their powers leave the float range."""
+    for v in values:
+        if v is None:
+            continue
+        try:
+            a = abs(float(v))
+        except (OverflowError, ValueError):
+            return False
+        if a != 0.0 and not (FLOAT_LO <= a <= FLOAT_HI):
+            return False
+    return True
+
+
 def rel_err(got, want):
     if got is None or want is None:
         return None
@@ -248,6 +267,9 @@ class C04Clauses(Clauses):
         if want is None:
             return None
         want = want * s / d
+        if not representable(want, s, d, s / d):
+            I.count("C04.value.skipped-float-range")
+            return None
         err = rel_err(frac(got.magnitude), want)
         if err is None:
             return None
@@ -317,6 +339,17 @@ class C05Clauses(C04Clauses):
                 if (a == 0) != (b == 0) or (a > 0) != (b > 0):
                     bad("sign", {"m": mag_desc(q.magnitude), "got": mag_desc(value.magnitude),
                                  "src": M.nf_str(mq), "dst": M.nf_str(mu)})
+            return out
+        nfs_ = [m for _, m in prepared if isinstance(m, tuple) and len(m) == 2]
+        szs = [I.size_nf(m) for m in nfs_]
+        if any(x is None for x in szs) or not representable(*szs) or not representable(
+                *[a / b for a in szs for b in szs if b]):
+            I.count("C05.skipped-float-range-or-unsized")
+            return out
+        q0 = info.get("_q")
+        if q0 is not None and not representable(*[frac(q0.magnitude) * a / b for a in szs for b in szs if b
+                                                  if frac(q0.magnitude) is not None]):
+            I.count("C05.skipped-float-range-or-unsized")
             return out
         exact = all(m is not None and I.exact(m) for _, m in prepared if isinstance(m, tuple))
         deg = sum(I.degree(m) for _, m in prepared if isinstance(m, tuple))
